@@ -147,11 +147,11 @@ ADDENDA = {
     "C03": "Also: stopping-rule monitor for the QR method (the stored basis must equal the iterate at an iteration where 'relative change <= tolerance or budget exhausted' allows stopping; float64, noise-probe and working-dtype replays widen the admissible set); histories that continue on a checkpoint-restored optimizer.",
     "C04": "Also: a sharded family (HSDP / HybridShard worlds on simulated ranks, shared with C07/C08): shards without a gradient stay bit-identical and present ones follow their own serial twin on every rank.",
     "C05": "Also: for SOAP a mismatch is excused only when both twins hold the same factor matrices but different (equally valid) eigenbases.",
-    "C06": "Also: several param groups per optimizer, bfloat16 and mixed bfloat16/float32 parameter groups, exact opmath rounding model for mixed dtypes, one fixed case for the listed known finding.",
-    "C07": "Also: mixed bfloat16/float32 parameter groups (forced in every 10th case), communication-dtype quantisation fingerprint of the applied update / parameter, thorough tier: real torch FSDP/HSDP wrapping on gloo processes (metadata compiled by the repo from the real flat parameters).",
-    "C08": "Also: mixed-dtype groups and the communication-dtype fingerprint as in C07; thorough tier: parameters produced by the real fully_shard (FSDP2) on gloo processes.",
-    "C09": "Also: negative loads per key, per sub-tree and into differently grouped optimizers; DDP (DTensor) state on simulated ranks.",
-    "C10": "Also: inside the region where rounding cannot excuse non-convergence (cond*n*u*100 < tolerance, budget >= 100 iterations) the accuracy bound is judged whatever flag is reported; epsilon dominating A, the zero matrix, structured inputs (unflagged diagonal, permuted / block diagonal, c*I), a non-default exponent multiplier in the config for the fast-vs-general comparison.",
+    "C06": "Also: several param groups per optimizer, bfloat16 and mixed bfloat16/float32 parameter groups, exact opmath rounding model for mixed dtypes, one fixed case for the listed known finding. Scheduler edits of param_groups (lr, weight decay, momentum) between steps on every rank and in the serial twin; gradient-presence pattern 'rotate' (constant number of parameters with a gradient, moving set).",
+    "C07": "Also: mixed bfloat16/float32 parameter groups (forced in every 10th case), communication-dtype quantisation fingerprint of the applied update / parameter, thorough tier: real torch FSDP/HSDP wrapping on gloo processes (metadata compiled by the repo from the real flat parameters). Scheduler edits of param_groups between steps on every rank and in the twin; 'rotate' presence pattern.",
+    "C08": "Also: mixed-dtype groups and the communication-dtype fingerprint as in C07; thorough tier: parameters produced by the real fully_shard (FSDP2) on gloo processes. Scheduler edits and the 'rotate' presence pattern as in C07.",
+    "C09": "Also: negative loads per key, per sub-tree and into differently grouped optimizers; DDP (DTensor) state on simulated ranks. Chained resumes (resume at k1, save again from the resumed optimizer at k2: that second checkpoint must equal the uninterrupted run's checkpoint at k2 key for key, bit for bit, and resume the trajectory); the documented torch.distributed.checkpoint flow (on-disk format, in-place load into the fresh optimizer's own state dict whose tensors alias its state, then load_distributed_state_dict of that dict) for two stop steps per run (quick) / all (thorough); the state right after loading is compared with the uninterrupted run's state at k.",
+    "C10": "Also: inside the region where rounding cannot excuse non-convergence (cond*n*u*100 < tolerance, budget >= 100 iterations) the accuracy bound is judged whatever flag is reported; epsilon dominating A, the zero matrix, structured inputs (unflagged diagonal, permuted / block diagonal, c*I), a non-default exponent multiplier in the config for the fast-vs-general comparison. Beyond 1/u, where the rounding allowance makes the residual bound vacuous, the higher-order guard is judged by probes: violation only if the float64 evaluation of the returned X's residual and four working-dtype evaluation orders all exceed 0.15.",
     "C11": "Also: roots below 1, rejection cases with both values of is_diagonal, structured inputs.",
     "C12": "Also: stopping-rule monitor as in C03, estimates with exact zeros (identity / permutation / block-orthogonal), zero rows, forced fixed-point instances, NaN-safe comparisons.",
     "C13": "Also: injected failures of any Exception type (plain Exception subclass, MemoryError, AssertionError, KeyError), per-group tolerance overrides, float16 storage overflow poison mode.",
@@ -159,5 +159,5 @@ ADDENDA = {
     "C15": "Also: strided (non-contiguous) shards and 0-D shards.",
     "C16": "Also: DAG-shaped object graphs with shared containers / tensors, store_non_tensors on and off.",
     "C17": "Also: neighbours of the beta3 sentinel (nextafter(-1, +-inf)) and denormal epsilon values.",
-    "C18": "Also: gradient tensors reused across steps, gradients compared after the step, groups holding only 2-D blocks, state-aliasing configuration class in every 5th case.",
+    "C18": "Also: gradient tensors reused across steps, gradients compared after the step, groups holding only 2-D blocks, state-aliasing configuration class in every 5th case. 0-3 scheduler edits of param_groups (lr tensor; weight decay / momentum python scalars the graph was specialised on) between steps on both twins.",
 }
